@@ -273,6 +273,13 @@ func (fr *Frame) execGo(in *ssa.Go) {
 		if c := fr.R.Eng.ContractFor(fn); c != nil {
 			args := fr.argVals(cc.Args)
 			vars := fr.contractVars(c, fn, cc, args)
+			if mc, ok := cc.Value.(*ssa.MakeClosure); ok {
+				for i, fv := range fn.FreeVars {
+					el := fv.Type().(*types.Pointer).Elem()
+					bv := fr.val(mc.Bindings[i])
+					vars[fv.Name()] = EV{T: fr.load(fr.locOf(bv, el)), Ty: el}
+				}
+			}
 			ctx := &EvalCtx{fr: fr, st: fr.st, vars: vars, pkgPath: c.PkgPath, contract: c}
 			for _, rq := range c.Requires {
 				fr.R.addObl("requires@go:"+shortName(c.Name), rq.Label, Implies(fr.cur, ctx.Bool(rq.E)), rq.Src, &rq, in.Pos())
